@@ -133,6 +133,7 @@ func (l *leader) tryTransfer() {
 	}
 
 	if target != 0 {
+		verifPoint("timeoutNow", l.snaps.dir, target)
 		l.transfer.respCh = make(chan rpcResponse, 1)
 		req := &timeoutNowReq{req{l.term, l.nid}}
 		if trace {
